@@ -540,6 +540,12 @@ def check(prop, tier):
                 if again is None:
                     extra["liveness_timeouts_not_reproduced"] = extra.get("liveness_timeouts_not_reproduced", 0) + 1
                     return
+            if "waited (more than 100 ms)" in clause or "did not return promptly" in clause:
+                # a latency clause (wall-clock threshold): re-run the case once; a machine that was merely busy
+                # does not reproduce it, a change that really waits does
+                if case_fails(engine, prop, caseline.split(" => ")[0], "P") is None:
+                    extra["latency_clauses_not_reproduced"] = extra.get("latency_clauses_not_reproduced", 0) + 1
+                    return
             small, got = shrink(engine, prop, caseline, "P")
             if got is None:
                 small, got = caseline.split(" => ")[0], (caseline, r)
